@@ -390,8 +390,12 @@ class Ctx:
     # -- verdict ------------------------------------------------------------------
     def finish(self, lean):
         pid = self.pid
-        os.makedirs(os.path.join(VERIF, "evidence"), exist_ok=True)
-        os.makedirs(os.path.join(VERIF, "replays"), exist_ok=True)
+        # (VERIF_EVIDENCE_DIR / VERIF_REPLAY_DIR: used only by tools/seeded_run.py so that a run against a
+        #  deliberately broken scratch tree does not overwrite the evidence of the real one)
+        ev_dir = os.environ.get("VERIF_EVIDENCE_DIR") or os.path.join(VERIF, "evidence")
+        rp_dir = os.environ.get("VERIF_REPLAY_DIR") or os.path.join(VERIF, "replays")
+        os.makedirs(ev_dir, exist_ok=True)
+        os.makedirs(rp_dir, exist_ok=True)
         violations = 0
         lines = []
         for key, text in self.known_hits.items():
@@ -402,7 +406,7 @@ class Ctx:
                 continue
             seen.add(sf["key"])
             h = hashlib.md5(json.dumps(sf, sort_keys=True, default=str).encode()).hexdigest()[:10]
-            path = os.path.join(VERIF, "replays", "%s-%s.json" % (pid, h))
+            path = os.path.join(rp_dir, "%s-%s.json" % (pid, h))
             json.dump({"property": pid, "kind": "failing-input", **sf}, open(path, "w"), indent=1, default=str)
             lines.append("VIOLATION property=%s replay=%s" % (pid, path))
             violations += 1
@@ -416,7 +420,7 @@ class Ctx:
                            "theorem no longer checks; the spec run over %d cases found no input on which the "
                            "code violates the property" % self.evaluations}
             h = hashlib.md5(json.dumps(rep, sort_keys=True, default=str).encode()).hexdigest()[:10]
-            path = os.path.join(VERIF, "replays", "%s-%s.json" % (pid, h))
+            path = os.path.join(rp_dir, "%s-%s.json" % (pid, h))
             json.dump(rep, open(path, "w"), indent=1, default=str)
             lines.append("VIOLATION property=%s replay=%s no-failing-input-found" % (pid, path))
             violations += 1
@@ -450,7 +454,7 @@ class Ctx:
         ev = {"property_id": pid, "tier": self.tier, "seed": self.seed, "level": "proof",
               "coverage": cov, "assumptions": self.assumptions + self.notes,
               "wall_s": round(wall, 2), "violations": violations}
-        json.dump(ev, open(os.path.join(VERIF, "evidence", "%s.json" % pid), "w"), indent=1, default=str)
+        json.dump(ev, open(os.path.join(ev_dir, "%s.json" % pid), "w"), indent=1, default=str)
         for l in lines:
             print(l)
         print("%s %s tier=%s seed=%d obligations=%d discharged=%d cases=%d nontrivial=%d mismatches=%d "
